@@ -93,6 +93,13 @@ class _Validator:
 
 
 def _signature(clause, e, prev):
+    sig = _signature0(clause, e, prev)
+    if sig and e.get("ev") == "probe" and e.get("tr") == "scion":
+        sig += " scion"
+    return sig
+
+
+def _signature0(clause, e, prev):
     ev = e["ev"]
     if clause == "ReqFits":
         if ev not in ("req", "panic"):
@@ -210,14 +217,20 @@ def run(ctx):
     rekeys2 = sum(1 for b in behs if sum(1 for e in b if e["ev"] == "rekey") >= 2)
     probes = sorted({e["n"] for e in events if e["ev"] == "probe"})
     probe_uids = sorted({e["u"] for e in events if e["ev"] == "probe"})
+    scion = [e for e in events if e["ev"] == "probe" and e["tr"] == "scion"]
+    scion_ok = sum(1 for e in scion if e["ans"] and not e["bad"])
+    scion_rot = sum(1 for e in scion if e["ans"] and e["prov"]["cur"] > 1)
+    scion_cap = any(e["n"] == 8 and e["u"] == 200 and e["ans"] for e in scion)
     capped_by_uid = sum(1 for e in events if e["ev"] == "probe" and e["ans"] and not e["bad"] and
                         e["n"] <= 8 and len(e["cookies"]) < e["n"])
     need = dict(req=cnt["req"], rep=cnt["rep"], losereq=cnt["losereq"], loseresp=cnt["loseresp"],
                 norep=cnt["norep"], tick=cnt["tick"], rekey=cnt["rekey"], probe=cnt["probe"],
                 rotated_replies=rotated, requests_under_retired_key=retired)
     ctx.log("coverage: %s; live pool levels %s, function-level pool levels %s, behaviours with re-keying %d, "
-            "panics %d, probe sizes %s x unique-id lengths %s (%d replies capped because of the identifier)" %
-            (need, levels_live, levels_fn, rekeys2, cnt["panic"], probes, probe_uids, capped_by_uid))
+            "panics %d, probe sizes %s x unique-id lengths %s (%d replies capped because of the identifier); "
+            "%d probes of the SCION listener (%d answered well, %d after a key rotation)" %
+            (need, levels_live, levels_fn, rekeys2, cnt["panic"], probes, probe_uids, capped_by_uid,
+             len(scion), scion_ok, scion_rot))
     pred = design_f.result()   # raises Inconclusive if a design-level run failed
     bg.shutdown()
 
@@ -280,7 +293,8 @@ def run(ctx):
     missing = [k for k, v in need.items() if not v]
     if not found and (missing or levels_fn != list(range(1, 9)) or levels_live != list(range(1, 9)) or
                       (rekeys2 == 0 and cnt["panic"] == 0) or probes[:1] != [1] or max(probes) < 12 or
-                      not {32, 200, 320} <= set(probe_uids)):
+                      not {32, 200, 320} <= set(probe_uids) or
+                      not scion_ok or not scion_rot or not scion_cap):
         raise vlib.Inconclusive("driver coverage incomplete: missing %s, live levels %s, fn levels %s" %
                                 (missing, levels_live, levels_fn))
     for sig, (what, rep) in sorted(found.items()):
@@ -308,15 +322,16 @@ def run(ctx):
             elif e["ev"] == "panic":
                 kinds.add((e["p"], e["fn"], "panic"))
             elif e["ev"] == "probe":
-                kinds.add(("probe", e["n"], e["u"], e["phtype"], e["prov"]["cur"], e["bad"]))
+                kinds.add(("probe", e["tr"], e["n"], e["u"], e["phtype"], e["prov"]["cur"], e["bad"]))
     sample = next((b for b in behs if any(e["ev"] == "loseresp" for e in b)), behs[0])
     ctx.cov.update(
         evaluations=exchanges, distinct_nontrivial=len(kinds),
         rule="exchanges of the real IPClient/NTS-KE/NTP server through the recording proxy under TLC-generated "
              "schedules (random walks with loss bias 0..5, clock jumps of 12h..3d, foreign requests with 1..12 "
              "fields and unique identifiers of 32..320 bytes; all schedules of 3-4 exchanges) plus every pool level through NewRequestPacket/EncodePacket "
-             "and every reply size 1..12 x unique-identifier length {32,36,64,160,200,300,320} from the live server; distinct = distinct (pool level, live/function "
-             "level, outcome, key of the cookie valid?, key id) resp. (probe size, unique-id length, placeholder wire type, current "
+             "and every reply size 1..12 x unique-identifier length {32,36,64,160,200,300,320} from the live IP listener and from the live SCION "
+             "listener (SCION/UDP, empty path); distinct = distinct (pool level, live/function "
+             "level, outcome, key of the cookie valid?, key id) resp. (listener, probe size, unique-id length, placeholder wire type, current "
              "key, reply malformed?)",
         traces_validated_against_impl=nval, events_validated=len(events), behaviours=len(behs),
         behaviours_with_violations=nviol_beh, event_counts=dict(cnt), pool_levels_live=levels_live,
